@@ -193,6 +193,7 @@ type mBlock struct {
 	typeSet     bool   // SetType has been applied
 	multiLabels bool   // parsed labels, untouched, some of them lexed into several literal tokens
 	fromSource  bool   // labels still those of the parsed source
+	pending     string // while detached: a recorded cause that will make the file wrong once the block is attached
 }
 
 func (b *mBlock) parsedLabels() bool { return b.fromSource }
